@@ -21,5 +21,5 @@ VERIF_REPO=$WT $HERE/vcheck $PID --tier $TIER 2>/dev/null | tail -3
 RC=${PIPESTATUS[0]}
 git -C /repo worktree remove --force $WT
 # restore generated files from the real repo
-python3 $HERE/py2v/py2v.py --repo /repo layout >/dev/null 2>&1
+python3 $HERE/py2v/py2v.py --repo /repo $(python3 $HERE/py2v/py2v.py --list) >/dev/null 2>&1
 exit $RC
